@@ -35,6 +35,40 @@ package model
 // every id appended to the output is a non-negative result of vocab.Encode, hence an index into Values
 //@   assert-at call append #1 : 0 <= id && id < len(bpe.vocab.Values)
 //@   assert-at call append #3 : 0 <= id && id < len(bpe.vocab.Values)
+// -- round 4 (audit) --
+// (loop invariants cannot be attached inside this synthetic range-over-func body: the engine
+// finds no loop statements for it; only per-site clauses below)
+// the byte loop visits exactly the bytes of the pre-tokenizer piece, in order: the k-th rune
+// written is the image of byte k of split, and the loop has run len(split) times when the
+// remapped text is looked up
+//@   assert-at call WriteRune #1 : b == split[rangeindex + 1]
+//@   assert-at call String #1 : rangeindex + 1 == len(split)
+// the merge path is entered only when the whole piece is not a vocabulary entry (otherwise the
+// piece would be emitted twice)
+//@   ghost-at after call Encode #1 : ghost_sc := result
+//@   assert-at call String #2 : ghost_sc < 0
+// what is appended is the id just looked up, at the end of the ids produced so far
+//@   assert-at call append #1 : len(arg1) == 1 && arg1[0] == id && len(arg0) == len(ids)
+//@   assert-at call append #3 : len(arg1) == 1 && arg1[0] == id && len(arg0) == len(ids)
+// initial linked list: piece r is the single rune r, its neighbours are r-1 and r+1
+//@   assert-at store p #1 : stored == rangeindex
+//@   assert-at store n #1 : stored == rangeindex + 2
+//@   assert-at store runes #2 : len(stored) == 1 && stored[0] == runes[rangeindex + 1]
+// merge step: two live pieces are joined only when the joined text is a vocabulary entry (a piece
+// that is not in the vocabulary is dropped from the output, process_text.go:289), the joined
+// piece is left followed by right, and the right piece dies
+//@   ghost-at after call Encode #2 : ghost_mid := result
+//@   assert-at call Encode #2 : arg1 == pair.value
+//@   assert-at call append #2 : ghost_mid >= 0 && len(left.runes) > 0 && len(right.runes) > 0 && len(arg0) == len(left.runes) && len(arg1) == len(right.runes) && (forall j int :: 0 <= j && j < len(arg1) ==> arg1[j] == right.runes[j])
+//@   assert-at store runes #3 : len(stored) == len(left.runes) + len(right.runes) && (forall j int :: 0 <= j && j < len(left.runes) ==> stored[j] == left.runes[j])
+//@   assert-at store runes #4 : len(stored) == 0
+// linked-list bookkeeping after a merge (checked just before the neighbours are re-paired): the
+// joined piece sits in slot pair.a, slot pair.b is dead, a's successor is right's old successor and
+// that successor points back to a; the two new candidate pairs are (a.p, a) and (a, a.n)
+//@   assert-at call Encode$1$1 #2 : (pair.a != pair.b ==> len(merges[pair.a].runes) == len(left.runes) + len(right.runes) && len(merges[pair.b].runes) == 0) && merges[pair.a].n == right.n && (0 <= right.n && right.n < len(merges) ==> merges[right.n].p == pair.a) && arg0 == merges[pair.a].p && arg1 == pair.a
+//@   assert-at call Encode$1$1 #3 : arg0 == pair.a && arg1 == merges[pair.a].n
+// final pieces: the loop visits every slot of merges in order and looks up the text of that slot
+//@   assert-at call Encode #3 : merge.p == merges[rangeindex + 1].p && merge.n == merges[rangeindex + 1].n && len(merge.runes) == len(merges[rangeindex + 1].runes) && len(merge.runes) > 0
 
 // Decode: a rune that is the table image of byte b makes exactly b the written byte
 // (b == 0 never reaches WriteByte: rune 0x100 is skipped, the property excludes NUL).
@@ -42,6 +76,8 @@ package model
 //@   requires forall k int :: 0 <= k && k < len(ids) ==> 0 <= ids[k] && ids[k] < len(bpe.vocab.Values)
 //@   assert-at call WriteByte #1 : forall b int :: 0 <= b && b <= 255 && rangeval == gpt2enc(b) ==> arg1 == b && b != 0
 //@   assert-at call WriteByte #1 : (256 <= rangeval && rangeval <= 323) || (33 <= rangeval && rangeval <= 255) ==> arg1 == gpt2dec(rangeval)
+// -- round 4 (audit) -- every id is decoded, in order
+//@   assert-at call Decode #1 : arg1 == ids[rangeindex + 1]
 
 // ---- token ids ----
 // The lazily built index maps a token text to its position in Values.
@@ -82,12 +118,52 @@ package model
 // contracts; the index obligations that depend on what the library priority queue
 // returns are listed as undecided in props/C20.json.
 //@ func (BytePairEncoding).Encode$1$1
+// -- round 4 (audit) -- pairwise(a, b): a candidate names exactly the two slots it was asked about,
+// carries the rank the merge table gives for (left, right) in this order and the text left+right
+// (the merge loop compares that text with the live pieces to recognise stale candidates)
+//@   ghost-at entry : ghost_rank := -1
+//@   ghost-at after call Merge #1 : ghost_rank := result
+//@   assert-at call Merge #1 : arg1 == left && arg2 == right
+//@   ensures result != nil ==> result.a == a && result.b == b && 0 <= a && b < len(runes)
+//@   ensures result != nil ==> result.rank >= 0
+//@   assert-at return #3 : result != nil && result.value == left + right && result.rank == ghost_rank
 
 // Encode: special-token split, then the pre-tokenizer loop (body = Encode$1).
 //@ func (BytePairEncoding).Encode
+// -- round 4 (audit) -- split on special tokens. For the special literal at hand the fragment text
+// is searched for it; a fragment without it is kept as it is, otherwise it is replaced by
+// [text before the occurrence (if any)] [the literal with ids = {id of the literal}] [text after it
+// (if any)] - three pieces that concatenate to the fragment. Fragments that already carry an id are
+// not searched again. The splice keeps every other fragment in place.
+//@   ghost-at after call Encode #1 : ghost_sid := result
+//@   ghost-at call append #5 : ghost_tail := len(arg1)
+//@   ghost-at after call Index #1 : ghost_ix := result
+//@   assert-at call Encode #1 : arg1 == special
+//@   assert-at call Index #1 : arg0 == frag.value && arg1 == special && len(frag.ids) == 0 && frag.value == fragments[i].value
+//@   assert-at call append #1 : ghost_ix < 0 && len(arg1) == 1 && arg1[0].value == frag.value && len(arg1[0].ids) == 0
+//@   assert-at call append #2 : ghost_ix > 0 && len(arg1) == 1 && arg1[0].value == frag.value[:ghost_ix] && len(arg1[0].ids) == 0
+//@   assert-at call append #3 : ghost_ix >= 0 && len(arg0) == ite(ghost_ix > 0, 1, 0) && len(arg1) == 1 && arg1[0].value == special && len(arg1[0].ids) == 1 && arg1[0].ids[0] == ghost_sid
+//@   assert-at call append #4 : len(arg1) == 1 && arg1[0].value == frag.value[ghost_ix + len(special):] && len(arg1[0].ids) == 0
+//@   assert-at call append #5 : len(arg0) == len(middle) && len(arg1) < len(fragments) && (len(arg1) > 0 ==> arg1[0].value == fragments[len(fragments) - len(arg1)].value)
+//@   assert-at call append #6 : len(arg0) + 1 + ghost_tail == len(fragments) && len(arg1) == len(middle) + ghost_tail && frag.value == fragments[len(arg0)].value && (len(arg0) > 0 ==> arg0[0].value == fragments[0].value)
+// assembling the result: every fragment is visited in order; a special fragment contributes exactly
+// its ids and is not tokenized as text, every other fragment goes to the pre-tokenizer whole
+//@   assert-at call append #7 : len(frag.ids) > 0 && frag.value == fragments[rangeindex + 1].value && len(arg0) == len(ids) && len(arg1) == len(frag.ids) && arg1[0] == frag.ids[0]
+//@   assert-at call split #1 : len(frag.ids) == 0 && arg1 == frag.value && frag.value == fragments[rangeindex + 1].value
+// BOS / EOS are added only on request, around (not instead of) the ids of the text
+//@   assert-at call append #8 : addSpecial && len(arg0) == 1 && arg0[0] == bpe.vocab.BOS && len(arg1) == len(ids)
+//@   assert-at call append #9 : addSpecial && len(arg1) == 1 && arg1[0] == bpe.vocab.EOS && len(arg0) == len(ids)
 
 // ---- SentencePiece ----
 //@ func (SentencePieceModel).Encode$1
+// -- round 4 (audit) -- pairwise(a, b): a candidate exists only for a joined text that is a
+// vocabulary entry, names exactly the two slots it was asked about and records the byte size of
+// left+right (the merge loop uses that size to recognise stale candidates)
+//@   ghost-at entry : ghost_pid := -1
+//@   ghost-at after call Encode #1 : ghost_pid := result
+//@   assert-at call Encode #1 : arg1 == left + right
+//@   ensures result != nil ==> result.a == a && result.b == b && 0 <= a && b < len(runes)
+//@   assert-at return #2 : result != nil && ghost_pid >= 0 && result.size == len(left) + len(right)
 
 // every id appended after a vocabulary lookup is guarded by id >= 0, hence an index into Values
 //@ func (SentencePieceModel).Encode
@@ -105,6 +181,59 @@ package model
 // does not round-trip (added after seeded change C20-seed2)
 //@   loop 8 invariant len(result) <= rangeindex + 1
 //@   assert-at call append #12 : len(result) <= len(token)
+// -- round 4 (audit) -- split on special tokens (same code as BytePairEncoding.Encode, same clauses)
+//@   ghost-at after call Encode #1 : ghost_sid := result
+//@   ghost-at call append #5 : ghost_tail := len(arg1)
+//@   ghost-at after call Index #1 : ghost_ix := result
+//@   assert-at call Encode #1 : arg1 == special
+//@   assert-at call Index #1 : arg0 == frag.value && arg1 == special && len(frag.ids) == 0 && frag.value == fragments[i].value
+//@   assert-at call append #1 : ghost_ix < 0 && len(arg1) == 1 && arg1[0].value == frag.value && len(arg1[0].ids) == 0
+//@   assert-at call append #2 : ghost_ix > 0 && len(arg1) == 1 && arg1[0].value == frag.value[:ghost_ix] && len(arg1[0].ids) == 0
+//@   assert-at call append #3 : ghost_ix >= 0 && len(arg0) == ite(ghost_ix > 0, 1, 0) && len(arg1) == 1 && arg1[0].value == special && len(arg1[0].ids) == 1 && arg1[0].ids[0] == ghost_sid
+//@   assert-at call append #4 : len(arg1) == 1 && arg1[0].value == frag.value[ghost_ix + len(special):] && len(arg1[0].ids) == 0
+//@   assert-at call append #5 : len(arg0) == len(middle) && len(arg1) < len(fragments) && (len(arg1) > 0 ==> arg1[0].value == fragments[len(fragments) - len(arg1)].value)
+//@   assert-at call append #6 : len(arg0) + 1 + ghost_tail == len(fragments) && len(arg1) == len(middle) + ghost_tail && frag.value == fragments[len(arg0)].value && (len(arg0) > 0 ==> arg0[0].value == fragments[0].value)
+// assembling the result: every fragment is visited in order; a special fragment contributes exactly
+// its ids and is not tokenized as text; every other fragment is tokenized whole, with ' ' -> U+2581
+//@   assert-at call append #7 : len(frag.ids) > 0 && frag.value == fragments[rangeindex + 1].value && len(arg0) == len(ids) && len(arg1) == len(frag.ids) && arg1[0] == frag.ids[0]
+//@   assert-at call ReplaceAll #1 : len(frag.ids) == 0 && arg0 == frag.value && arg1 == " " && arg2 == spmWhitespaceSep && frag.value == fragments[rangeindex + 1].value
+// whole-fragment shortcut: the id appended is the one looked up for the converted text; the merge
+// path is entered only when that lookup failed (otherwise the fragment would be emitted twice)
+//@   ghost-at after call Encode #2 : ghost_sc := result
+//@   assert-at call Encode #2 : arg1 == text
+//@   assert-at call append #8 : len(arg1) == 1 && arg1[0] == id && len(arg0) == len(ids)
+//@   assert-at call Init #1 : ghost_sc < 0
+// initial linked list: piece r is the single rune r, its neighbours are r-1 and r+1
+//@   assert-at store p #1 : stored == rangeindex
+//@   assert-at store n #1 : stored == rangeindex + 2
+//@   assert-at store runes #2 : len(stored) == 1 && stored[0] == runes[rangeindex + 1]
+// merge step: the joined piece is left followed by right and the right piece dies; bookkeeping as in BPE
+//@   assert-at call append #9 : len(arg0) == len(left.runes) && len(arg1) == len(right.runes)
+//@   assert-at store runes #3 : len(stored) == len(left.runes) + len(right.runes) && (forall j int :: 0 <= j && j < len(left.runes) ==> stored[j] == left.runes[j])
+//@   assert-at store runes #4 : len(stored) == 0
+//@   assert-at call Encode$1 #2 : (pair.a != pair.b ==> len(merges[pair.a].runes) == len(left.runes) + len(right.runes) && len(merges[pair.b].runes) == 0) && merges[pair.a].n == right.n && (0 <= right.n && right.n < len(merges) ==> merges[right.n].p == pair.a) && arg0 == merges[pair.a].p && arg1 == pair.a
+//@   assert-at call Encode$1 #3 : arg0 == pair.a && arg1 == merges[pair.a].n
+// final pieces: every slot of merges is visited in order; a piece found in the vocabulary
+// contributes that id; the byte fallback runs only for a piece that was not found, visits every
+// byte of the piece in order, and its ids are appended after the ids produced so far
+//@   ghost-at after call Encode #3 : ghost_tid := result
+//@   assert-at call Encode #3 : arg1 == token && merge.p == merges[rangeindex + 1].p && merge.n == merges[rangeindex + 1].n && len(merge.runes) == len(merges[rangeindex + 1].runes)
+//@   assert-at call append #10 : len(arg1) == 1 && arg1[0] == id && len(arg0) == len(ids)
+//@   loop 8 invariant ghost_tid < 0
+//@   assert-at call Sprintf #1 : ghost_tid < 0 && arg0 == "<0x%02X>" && b == token[rangeindex + 1]
+//@   assert-at call append #11 : len(arg1) == 1 && arg1[0] == unknownID && len(arg0) == len(result)
+//@   assert-at call append #12 : len(arg0) == len(ids) && len(arg1) == len(result) && rangeindex + 1 == len(token)
+// BOS / EOS are added only on request, around (not instead of) the ids of the text
+//@   assert-at call append #13 : addSpecial && len(arg0) == 1 && arg0[0] == spm.vocab.BOS && len(arg1) == len(ids)
+//@   assert-at call append #14 : addSpecial && len(arg1) == 1 && arg1[0] == spm.vocab.EOS && len(arg0) == len(ids)
 
 //@ func (SentencePieceModel).Decode
 //@   requires forall k int :: 0 <= k && k < len(ids) ==> 0 <= ids[k] && ids[k] < len(spm.vocab.Values)
+// -- round 4 (audit) -- every id is decoded in order; U+2581 goes back to ' ' (the inverse of
+// Encode's replacement); exactly the entries spelled <0xNN> become the byte NN (parsed from the
+// four characters 0xNN), every other entry is written as it is
+//@   assert-at call Decode #1 : arg1 == ids[rangeindex + 1]
+//@   assert-at call ReplaceAll #1 : arg0 == data && arg1 == spmWhitespaceSep && arg2 == " "
+//@   assert-at call ParseUint #1 : len(data) == 6 && shasprefix(data, "<0x") && shassuffix(data, ">") && arg0 == data[1:5] && arg1 == 0 && arg2 == 8
+//@   assert-at call WriteByte #1 : arg1 == byteVal % 256
+//@   assert-at call WriteString #1 : arg1 == data && !(len(data) == 6 && shasprefix(data, "<0x") && shassuffix(data, ">"))
